@@ -66,6 +66,63 @@ func c14Timer(nops int) {
 	zzvrt.Cover("c14.end")
 }
 
+// H_C14_Concurrent: two goroutines arm the timer at about the same time (the read pump handling a hello frame, the
+// application approving, a timer goroutine re-arming for a prolongation), one with a short and one with a long duration and
+// with different timer types; optionally the arming goroutines stop the timer afterwards. Whatever the interleaving, the
+// timer that is current once both are done (its type is what the connection reports) is the only one that may deliver, at
+// its own deadline, and not at all if the last operation was a stop.
+func H_C14_Concurrent() {
+	e := newEnv(ShipRoleServer, "")
+	c := e.c
+	c14Delivered = 0
+	zzvrt.SetTimers(false)
+	short, long := 10*time.Second, 60*time.Second
+	if !zzvrt.Symbolic() {
+		short, long = 40*time.Millisecond, 400*time.Millisecond
+	}
+	stopAfter := zzvrt.Choice("stop.after", 3) // 0 nobody stops, 1 the short armer stops afterwards, 2 the long armer does
+	order := 0                                  // ghost: which goroutine performed the last operation
+	done := 0
+	go func() {
+		c.setHandshakeTimer(timeoutTimerTypeWaitForReady, short)
+		if stopAfter == 1 {
+			c.stopHandshakeTimer()
+		}
+		order = 1
+		done++
+	}()
+	go func() {
+		c.setHandshakeTimer(timeoutTimerTypeSendProlongationRequest, long)
+		if stopAfter == 2 {
+			c.stopHandshakeTimer()
+		}
+		order = 2
+		done++
+	}()
+	zzvrt.WaitQuiescent()
+	zzvrt.Assert(done == 2, "C14.arming-blocked")
+	running := c.getHandshakeTimerRunning()
+	current := c.getHandshakeTimerType()
+	_ = order
+	zzvrt.FireTimersUpTo(short)
+	zzvrt.WaitQuiescent()
+	wantEarly := 0
+	if running && current == timeoutTimerTypeWaitForReady {
+		wantEarly = 1
+	}
+	zzvrt.Assert(c14Delivered <= wantEarly, "C14.stopped-or-replaced-timer-fired")
+	zzvrt.Assert(c14Delivered >= wantEarly, "C14.armed-timer-did-not-fire")
+	zzvrt.FireTimersUpTo(long)
+	zzvrt.WaitQuiescent()
+	want := 0
+	if running {
+		want = 1
+	}
+	zzvrt.Assert(c14Delivered <= want, "C14.stopped-or-replaced-timer-fired")
+	zzvrt.Assert(c14Delivered >= want, "C14.armed-timer-did-not-fire")
+	zzvrt.Cover("c14.end")
+}
+
 func H_C14_Timer2() { c14Timer(2) }
 func H_C14_Timer3() { c14Timer(3) }
 func H_C14_Timer4() { c14Timer(4) }
